@@ -39,8 +39,12 @@ def model_pipeline(ix, R, oid, site=SM + '::SimpleForwardModel.model'):
     evs = fl.events
     if evs.index(pr) > evs.index(pi):
         why.append('path_integral runs before prepare')
+    # profiles are rebuilt from the current parameters before anything is evaluated
+    ip = calls(fl, 'initialize_profiles')
+    if len(ip) != 1 or ip[0].guards or ip[0].loops or evs.index(ip[0]) > min(evs.index(si), evs.index(pr), evs.index(pi)):
+        why.append('initialize_profiles() is not called unconditionally before the evaluation')
     R.check(oid, 'ARG', site,
-            'star SED, every contribution.prepare and path_integral use one grid; '
+            'initialize_profiles() first; star SED, every contribution.prepare and path_integral use one grid; '
             'model() returns (grid, path_integral(...)[0], ...)',
             not why, key='; '.join(why), detail='; '.join(why), loc=f.loc(pi.node),
             extracted=fmt(fl, g))
